@@ -1,10 +1,21 @@
 --------------------------------- MODULE Gate ---------------------------------
-(* chi-square gating cost conversions; distances in 1/10000 units.             *)
-EXTENDS Naturals
+(* Property C07, gate consistency.  Chi-square gating of a squared Mahalanobis   *)
+(* distance and its two cost conversions; distances and costs in 1/10000 units.  *)
+(* A filter with `dof` measured coordinates gates at the 95 % quantile of the     *)
+(* chi-square distribution with dof degrees of freedom: box filter 5 (xc, yc,     *)
+(* angle, aspect, height), point filter and point-vector filter 2 (x, y).         *)
+EXTENDS Naturals, Sequences
 Upper == 1000000                         \* CHI2_UPPER_BOUND = 100.0
-Chi95(dof) == CASE dof = 2 -> 59915 [] dof = 5 -> 110700     \* CHI2INV95[dof-1]
+Chi95(dof) == CASE dof = 2 -> 59915 [] dof = 5 -> 110700     \* CHI2INV95[dof - 1] = 5.9915, 11.070
+Dof(filter) == CASE filter = "box" -> 5 [] filter = "point" -> 2 [] filter = "vec" -> 2
 Direct(d, dof)   == IF d > Chi95(dof) THEN Upper ELSE d
 Inverted(d, dof) == IF d > Chi95(dof) THEN 0 ELSE Upper - d
+(* what the property states *)
 Consistent(d, dof) == Inverted(d, dof) = Upper - Direct(d, dof)
 SameGate(d, dof) == (Direct(d, dof) = Upper) <=> (Inverted(d, dof) = 0)      \* for d < Upper
+Filters == {"box", "point", "vec"}
+(* grid of distances around both gates, the origin and the upper bound *)
+Steps == {1, 7, 100, 2500, 10000}
+Around(c) == {c} \cup {c + j * s : j \in 1..4, s \in Steps} \cup {c - j * s : j \in 1..4, s \in {t \in Steps : 4 * t <= c}}
+Grid == {0, 1, 5000, 30000, 90000, 500000} \cup Around(Chi95(2)) \cup Around(Chi95(5)) \cup Around(Upper) \cup {2 * Upper}
 =============================================================================
